@@ -6,6 +6,7 @@ import OAP.Model.Frame
 import OAP.Spec.Layout
 import OAP.Proofs.Frame
 import OAP.Props.C09
+import OAP.Proofs.GenFuncs
 namespace OAP.C02
 open OAP OAP.Frame
 
@@ -103,5 +104,29 @@ example : ValidFrame .v1 { compress := fun _ => .err "", read := fun c => if c =
     md2 := by intro h; cases h
     gz1 := fun _ => by decide
     gz0 := by intro h; cases h }
+
+/-! ### generated translations of the header codec (T2, function level)
+
+`Gen.Fn.v1_Header_Pack`, `v2_Header_Pack`, `v1_Header_UnpackBytes`, `v2_Header_UnpackBytes` are rewritten from go/v1/header.go and
+go/v2/v2_header.go by every run: the buffer allocated by `make`, every `data[idx] = …`, `binary.BigEndian.PutUint16/32`, the running
+offset, the type tests, the length guards, every `frame[idx]` and slice — with `panic` where Go would panic. `pack_conforms` and the
+decoder theorems are about the model's list-building `Header.pack` / `Header.unpackBytes`; these say they are the same functions. -/
+
+/-- `func (h Header) Pack() ([]byte, error)` of v1 and v2 as translated: the same bytes, the same two errors, and no index or slice
+out of range for any header -/
+theorem header_pack_is_generated (h : Header) :
+    Gen.Fn.v1_Header_Pack (GenFuncs.v1G h) = Header.pack .v1 h ∧ Gen.Fn.v2_Header_Pack (GenFuncs.v2G h) = Header.pack .v2 h :=
+  ⟨GenFuncs.v1_header_pack_gen h, GenFuncs.v2_header_pack_gen h⟩
+
+/-- `func (h *Header) UnpackBytes(ctx, frame) (body []byte, err error)` of v1 and v2 as translated, on a fresh (pool-reset) header:
+the same header fields, the same rest of the frame, the same errors, and no index or slice out of range for ANY byte string -/
+theorem header_unpackBytes_is_generated (frame : Bytes) :
+    (Gen.Fn.v1_Header_UnpackBytes {} frame).map (fun p => (GenFuncs.v1M p.1, p.2)) = Header.unpackBytes .v1 frame ∧
+    (Gen.Fn.v2_Header_UnpackBytes {} frame).map (fun p => (GenFuncs.v2M p.1, p.2)) = Header.unpackBytes .v2 frame :=
+  ⟨GenFuncs.v1_header_unpackBytes_gen frame, GenFuncs.v2_header_unpackBytes_gen frame⟩
+
+/-- non-vacuity: the translated v2 `Pack` on a concrete response header gives the layout's bytes -/
+example : Gen.Fn.v2_Header_Pack { type := 2, verify := 1, cmdCode := 7, requestId := 0x01020304, statusCode := 5, metadataLength := 0x0102, bodyLength := 0x030405 }
+    = .ok [0x12, 7, 1, 2, 3, 4, 5, 1, 2, 3, 4, 5] := by decide
 
 end OAP.C02
